@@ -200,6 +200,14 @@ class ScriptServer(fakenet.Endpoint):
         raise exc
 
     # ---- response
+    def _header_value(self, v: str) -> str:
+        """'@date+N' / '@date-N' -> the HTTP-date N seconds after / before the (virtual) moment of the reply."""
+        if v.startswith("@date") and self.clock is not None:
+            import email.utils
+
+            return email.utils.formatdate(self.clock.time() + int(v[5:]), usegmt=True)
+        return v
+
     def body_for(self, msg, o, serial):
         target = msg.request_line.split(b" ")[1] if msg.request_line.count(b" ") >= 2 else b"?"
         return fakenet.tag_body(target, o.get("body_len", 24), serial)
@@ -212,7 +220,7 @@ class ScriptServer(fakenet.Endpoint):
             status = o.get("status", 200)
             body = self.body_for(msg, o, att["serial"]) if "body" not in o else o["body"].encode("latin-1")
             att["body"] = body
-            hdrs = [(a.encode("latin-1"), b.encode("latin-1")) for a, b in o.get("headers", [])]
+            hdrs = [(a.encode("latin-1"), self._header_value(b).encode("latin-1")) for a, b in o.get("headers", [])]
             framing = o.get("framing", "cl")
             bodyless = method == b"HEAD" or status in (204, 304) or 100 <= status < 200
             if bodyless:
